@@ -35,6 +35,7 @@ type StakeCtrler struct {
 	rwdLedgUpInterval int64
 	lastRwdHash       []byte
 	stakeLimiter      *StakeLimiter
+	chkStakeLimiter   *StakeLimiter // used by CheckTx only: mempool checks must not consume the block's limits
 	govParams         ctrlertypes.IGovHandler
 
 	logger tmlog.Logger
@@ -75,6 +76,7 @@ func NewStakeCtrler(config *cfg.Config, govHandler ctrlertypes.IGovHandler, logg
 		rwdLedgUpInterval: int64(10),
 		lastRwdHash:       rwdHashDB.LastRewardHash(),
 		stakeLimiter:      NewStakeLimiter(nil, govHandler.MaxValidatorCnt(), govHandler.MaxIndividualStakeRatio(), govHandler.MaxUpdatableStakeRatio()),
+		chkStakeLimiter:   NewStakeLimiter(nil, govHandler.MaxValidatorCnt(), govHandler.MaxIndividualStakeRatio(), govHandler.MaxUpdatableStakeRatio()),
 		govParams:         govHandler,
 		logger:            logger.With("module", "rigo_StakeCtrler"),
 	}
@@ -139,6 +141,8 @@ func (ctrler *StakeCtrler) BeginBlock(blockCtx *ctrlertypes.BlockContext) ([]abc
 	sort.Sort(PowerOrderDelegatees(ctrler.allDelegatees)) // sort by power
 
 	ctrler.stakeLimiter.Reset(PowerOrderDelegatees(ctrler.allDelegatees),
+		ctrler.govParams.MaxValidatorCnt(), ctrler.govParams.MaxIndividualStakeRatio(), ctrler.govParams.MaxUpdatableStakeRatio())
+	ctrler.chkStakeLimiter.Reset(PowerOrderDelegatees(ctrler.allDelegatees),
 		ctrler.govParams.MaxValidatorCnt(), ctrler.govParams.MaxIndividualStakeRatio(), ctrler.govParams.MaxUpdatableStakeRatio())
 
 	//
@@ -364,8 +368,10 @@ func (ctrler *StakeCtrler) doRewardTo(delegatee *Delegatee, height int64) (*uint
 
 func (ctrler *StakeCtrler) ValidateTrx(ctx *ctrlertypes.TrxContext) xerrors.XError {
 	getDelegatee := ctrler.delegateeLedger.Get
+	stakeLimiter := ctrler.chkStakeLimiter
 	if ctx.Exec {
 		getDelegatee = ctrler.delegateeLedger.GetFinality
+		stakeLimiter = ctrler.stakeLimiter
 	}
 
 	switch ctx.Tx.GetType() {
@@ -447,7 +453,7 @@ func (ctrler *StakeCtrler) ValidateTrx(ctx *ctrlertypes.TrxContext) xerrors.XErr
 			}
 		}
 		if len(ctrler.lastValidators) >= 3 {
-			if xerr := ctrler.stakeLimiter.CheckLimit(_delg, txPower); xerr != nil {
+			if xerr := stakeLimiter.CheckLimit(_delg, txPower); xerr != nil {
 				return xerrors.ErrUpdatableStakeRatio.Wrap(xerr)
 			}
 		}
@@ -479,7 +485,7 @@ func (ctrler *StakeCtrler) ValidateTrx(ctx *ctrlertypes.TrxContext) xerrors.XErr
 		}
 
 		if len(ctrler.lastValidators) >= 3 {
-			if xerr := ctrler.stakeLimiter.CheckLimit(delegatee, -1*s0.Power); xerr != nil {
+			if xerr := stakeLimiter.CheckLimit(delegatee, -1*s0.Power); xerr != nil {
 				return xerrors.ErrUpdatableStakeRatio.Wrap(xerr)
 			}
 		}
